@@ -4,7 +4,6 @@ import (
 	"encoding/json"
 	"io"
 	"reflect"
-	"sync/atomic"
 	"runtime"
 	"strings"
 	"sync"
@@ -33,60 +32,12 @@ type cnStep struct {
 type cnCase struct {
 	Sched []string `json:"sched"`
 }
-type cnEvent struct {
-	Ev   string `json:"ev"`
-	Seq  int64  `json:"seq"`
-	K    string `json:"k"`
-	How  string `json:"how"`
-	Gone bool   `json:"gone"`
-}
-
-// evlog is the merged log of what the test does to a connection (logged before the action)
-// and of the library's internal events (verif hook, logged at the state change).
-type evlog struct {
-	mu  sync.Mutex
-	evs []cnEvent
-}
-
-func (e *evlog) add(ev cnEvent) {
-	e.mu.Lock()
-	ev.Seq = memnet.Seq()
-	e.evs = append(e.evs, ev)
-	e.mu.Unlock()
-}
-
-var curLog atomic.Value // *evlog of the scenario being run (scenarios run sequentially)
-
-// logs by transport: an internal event belongs to the scenario whose in-memory transport the
-// connection object wraps (a goroutine left over from an earlier scenario must not write into
-// the current log)
-var logsByConn sync.Map // uintptr (address of the memnet.Conn) -> *evlog
-
-func transportOf(obj interface{}) uintptr {
-	v := reflect.ValueOf(obj)
-	if v.Kind() == reflect.Ptr {
-		v = v.Elem()
-	}
-	if v.Kind() != reflect.Struct {
-		return 0
-	}
-	f := v.FieldByName("rwc") // *conn
-	if !f.IsValid() {
-		f = v.FieldByName("r") // *liveSwitchReader, before the switch: still the raw transport
-	}
-	if f.IsValid() && f.Kind() == reflect.Interface && !f.IsNil() {
-		return f.Elem().Pointer()
-	}
-	return 0
-}
-
 func installHook() {
 	diam.SetVerifHook(func(point string, obj interface{}, args ...interface{}) {
-		li, ok := logsByConn.Load(transportOf(obj))
-		if !ok {
+		l := logFor(obj)
+		if l == nil {
 			return
 		}
-		l := li.(*evlog)
 		ev := cnEvent{Ev: point}
 		if point == "cn.create" && len(args) > 0 {
 			ev.Gone, _ = args[0].(bool)
